@@ -48,6 +48,7 @@ TN = ["test/a", "test/b", "t/x", "other/name", "a"]
 RESERVED = ["_source", "_classification", "_generated", "_version"]
 # attributes of the GroupedRecord object itself: a member field of such a name is served by _asdict() (fix 619dd93) but not
 # by attribute access on the group (`group.name` is the group's type name: public API, recorded limitation)
+EXPR_DS = ["t/expr", [["varint", "total"], ["string", "label"], ["varint", "d"]]]
 GROUP_OWN = ["name", "records", "descriptors", "flat_fields", "fieldname_to_record", "_desc"]
 
 
@@ -153,6 +154,15 @@ def gen_cases(rng, tier):
             first_t = next(tt for m_ in flat for tt, ff in m_[1][1] if ff == fn)
             case["poke"] = [fn, V.gen_value(r, first_t, none_chance=5)]
         cases.append(case)
+    r = rng.fork("exprseq")
+    for _ in range(n // 20):
+        expr = r.choice(["if total > 100:\n    label = 'BIG'\nq = total // d",
+                         "tag = 'x'\nif d == 0:\n    raise ValueError('no')\nq = 1",
+                         "if total > 100:\n    label = 'BIG'\n    tag = 'big'\nq = total // d"])
+        rows = [[r.choice([5, 150, 1000, 7]), r.choice(["small", "keep", "zz"]), r.choice([0, 0, 1, 3])] for _ in range(r.randint(2, 6))]
+        cases.append({"kind": "exprseq", "expr": expr, "rows": rows})
+    cases.append({"kind": "exprseq", "expr": "if total > 100:\n    label = 'BIG'\nq = total // d",
+                  "rows": [[150, "a", 0], [5, "keep", 1], [150, "b", 1], [7, "c", 0], [7, "mine", 2]]})
     r = rng.fork("replace")
     for _ in range(n // 2):
         rec = _gen_rec(r)
@@ -365,6 +375,21 @@ def run_real(case):
             before = [obs_rec(rec)]
             out = RecordFieldRewriter(fields=list(case["fields"]), exclude=list(case["exclude"])).rewrite(rec)
             return {"inputs": before, "inputs_after": [obs_rec(rec)], "output": obs_rec(out), "same_object": out is rec}
+        if k == "exprseq":
+            # one rewriter with an EXPRESSION over a sequence of records, some of which make the expression raise (the
+            # caller catches that and goes on): every record is rewritten from its own fields alone
+            rw = RecordFieldRewriter(expression=case["expr"])
+            steps = []
+            for vals in case["rows"]:
+                rec = V.descriptor(EXPR_DS)(**dict(zip([n for _, n in EXPR_DS[1]], vals)))
+                try:
+                    out = rw.rewrite(rec)
+                    steps.append({kk: (getattr(out, kk, None) if not isinstance(getattr(out, kk, None), (int, str, type(None)))
+                                       else getattr(out, kk, None)) for kk in ("total", "label", "d", "q", "tag")})
+                    steps[-1] = {kk: (v if isinstance(v, (str, type(None))) else int(v)) for kk, v in steps[-1].items()}
+                except Exception as e:          # noqa: BLE001
+                    steps.append({"raised": type(e).__name__})
+            return {"steps": steps}
         if k == "projectseq":
             rw = RecordFieldRewriter(fields=list(case["fields"]), exclude=list(case["exclude"]))
             steps = []
@@ -450,6 +475,20 @@ def oracle(case, obs):
     k = case["kind"]
     if "error" in obs:
         return f"operation raised {obs['error']}: {obs.get('msg')}"
+    if k == "exprseq":
+        for i, (vals, st) in enumerate(zip(case["rows"], obs["steps"])):
+            env = dict(zip([n for _, n in EXPR_DS[1]], vals))
+            loc = {}
+            try:
+                exec(case["expr"], dict(env), loc)       # the expression over THIS record's fields, nothing else
+            except Exception as e:          # noqa: BLE001
+                want = {"raised": type(e).__name__}
+            else:
+                want = {kk: loc.get(kk, env.get(kk)) for kk in ("total", "label", "d", "q", "tag")}
+            if st != want:
+                return (f"record {i} of the sequence rewritten with the expression: {st} instead of {want} (the record's own "
+                        f"fields {env})")
+        return None
     if k == "projectseq":
         # every record of the sequence is projected as if it were the only one the rewriter ever saw
         for i, (spec, st) in enumerate(zip(case["records"], obs["steps"])):
@@ -677,6 +716,8 @@ def _one(case, i):
 
 
 def model_op(case, obs):
+    if case["kind"] == "exprseq":
+        return None
     if case["kind"] == "projectseq":
         if "error" in obs:
             return None
@@ -800,6 +841,8 @@ def nontrivial(case, obs):
     k = case["kind"]
     if "error" in obs:
         return False
+    if k == "exprseq":
+        return any("raised" in st for st in obs["steps"]) and any("raised" not in st for st in obs["steps"])
     if k == "merge":
         names = [n for _, fs in case["descs"] for _, n in fs]
         return len(names) != len(set(names))
@@ -823,6 +866,8 @@ def classify(case, obs):
     k = case["kind"]
     if "error" in obs:
         return f"{k}:error:{obs['error']}"
+    if k == "exprseq":
+        return "exprseq"
     if k in ("merge", "extend"):
         return f"{k}:{'replace' if case['replace'] else 'first-wins'}:{'renamed' if case['name'] else 'name-of-first'}"
     if k == "ts":
